@@ -200,11 +200,15 @@ structure Cfg where
   manHitRefreshesResult : Bool
   /-- `Manifold.result` is withheld when the generating orbit changed since it was computed -/
   manResultChecksOrbit : Bool
+  /-- `__getstate__` saves the live value of a computed attribute even when it is None (instead of the copy that an
+  earlier `load` left in the domain object's `__dict__`) -/
+  saveOverridesStale : Bool
 deriving DecidableEq, Repr
 
 def Cfg.sound (c : Cfg) : Bool :=
   c.propHitRefreshesTraj && c.corrKeyHasState && c.corrApplyOnHit && c.corrCfgSetterResets &&
-  c.applyClearsShadows && c.manKeyHasOrbitState && c.manHitRefreshesResult && c.manResultChecksOrbit
+  c.applyClearsShadows && c.manKeyHasOrbitState && c.manHitRefreshesResult && c.manResultChecksOrbit &&
+  c.saveOverridesStale
 
 inductive OOp where
   | setPeriod (T : Option Tok)
@@ -246,10 +250,19 @@ structure OState where
   ccache : List ((Option Tok × Tok) × (Tok × Tok))         -- correction service cache
   mres : Option (Tok × Tok × Tok)                          -- `_manifold_result` (+ ghost: orbit state, period it was computed for)
   mcache : List ((Option (Tok × Option Tok) × Tok) × Tok)  -- manifold service cache
+  domT : Option Tok                                        -- copies of `_period/_trajectory/_stability_info` that the
+  domTraj : Option Tok                                     -- last `load` left in the domain object's `__dict__`
+  domStab : Option Tok
 deriving Repr
 
 def freshO (x : Tok) (T : Option Tok) : OState :=
-  { x := x, T := T, ccfg := 0, traj := none, stabInfo := none, dcache := [], ccache := [], mres := none, mcache := [] }
+  { x := x, T := T, ccfg := 0, traj := none, stabInfo := none, dcache := [], ccache := [], mres := none, mcache := [],
+    domT := none, domTraj := none, domStab := none }
+
+/-- what `__getstate__` writes for a computed attribute: the live value, or — unless `saveOverridesStale` — the stale
+copy in `__dict__` when the live value is None -/
+def savedAttr (cfg : Cfg) (live stale : Option Tok) : Option Tok :=
+  if cfg.saveOverridesStale then live else (match live with | some v => some v | none => stale)
 
 /-- `period.setter` (valid value) -/
 def setPeriodO (s : OState) (T' : Option Tok) : OState :=
@@ -343,7 +356,11 @@ def stepO (cfg : Cfg) (O : Oracle) (s : OState) : OOp → OState × Out
           if cfg.manResultChecksOrbit && !(decide (x0 = s.x ∧ some T0 = s.T)) then (s, .opt none)
           else (s, .opt (some v))
   | .saveLoad =>
-      ({ s with ccfg := 0, dcache := [], ccache := [], mres := none, mcache := [] }, .unit)
+      let T' := savedAttr cfg s.T s.domT
+      let tr' := savedAttr cfg s.traj s.domTraj
+      let sb' := savedAttr cfg s.stabInfo s.domStab
+      ({ s with T := T', traj := tr', stabInfo := sb', domT := T', domTraj := tr', domStab := sb',
+                ccfg := 0, dcache := [], ccache := [], mres := none, mcache := [] }, .unit)
 
 def runO (cfg : Cfg) (O : Oracle) : OState → List OOp → List Out
   | _, [] => []
@@ -426,9 +443,11 @@ structure CCfg where
   hamDeg : HamDeg
   /-- the degree setter drops the `_hamsys` attribute -/
   setterClearsHamsys : Bool
+  /-- as `Cfg.saveOverridesStale` (the same `_HitenBase.__getstate__`) -/
+  saveOverridesStale : Bool
 deriving DecidableEq, Repr
 
-def CCfg.sound (c : CCfg) : Bool := (c.hamDeg != .onMiss) && c.setterClearsHamsys
+def CCfg.sound (c : CCfg) : Bool := (c.hamDeg != .onMiss) && c.setterClearsHamsys && c.saveOverridesStale
 
 structure COracle where
   pipe : Nat → Tok               -- shared Hamiltonian pipeline service: (point, degree) ↦ pipeline
@@ -457,14 +476,15 @@ structure CState where
   d : Nat
   hamsys : Option Tok
   cache : List (CKey × Tok)
+  domHamsys : Option Tok          -- copy of `_hamsys` left in the domain object's `__dict__` by the last load
 deriving Repr
 
-def freshC (d : Nat) : CState := { d := d, hamsys := none, cache := [] }
+def freshC (d : Nat) : CState := { d := d, hamsys := none, cache := [], domHamsys := none }
 
 def setDegreeC (cfg : CCfg) (s : CState) (n : Nat) : CState :=
   if n = s.d then s
-  else { d := n, hamsys := if cfg.setterClearsHamsys then none else s.hamsys,
-         cache := resetKey (.pipe n) (resetKey (.pipe s.d) s.cache) }
+  else { s with d := n, hamsys := if cfg.setterClearsHamsys then none else s.hamsys,
+                cache := resetKey (.pipe n) (resetKey (.pipe s.d) s.cache) }
 
 /-- the `pipeline` property -/
 def pipelineC (O : COracle) (s : CState) : CState × Tok :=
@@ -497,7 +517,10 @@ def stepC (cfg : CCfg) (O : COracle) (s : CState) : COp → CState × Out
       match lookup (.map s.d e) s.cache with
       | some v => (s, .tok v)
       | none => let v := O.map s.d e; ({ s with cache := (.map s.d e, v) :: s.cache }, .tok v)
-  | .saveLoad => ({ s with hamsys := none, cache := [] }, .unit)
+  | .saveLoad =>
+      -- `_hamsys` is written by `__getstate__` and restored by `_setup_services`; the cache is rebuilt
+      let h' := if cfg.saveOverridesStale then s.hamsys else (match s.hamsys with | some v => some v | none => s.domHamsys)
+      ({ s with hamsys := h', domHamsys := h', cache := [] }, .unit)
 
 def runC (cfg : CCfg) (O : COracle) : CState → List COp → List Out
   | _, [] => []
